@@ -81,7 +81,8 @@ def generate(rng, cfg, guards):
     ops.append(['new', rng.randrange(len(W.SHAPES)), rng.randrange(1, 3), rng.randrange(10000), rng.chance(0.4), 0, rng.chance(0.3)])
     ops.append(['append', len(ops) - 1])
     if rng.chance(0.45):
-        ops.append(['new', rng.randrange(len(W.SHAPES)), rng.randrange(1, 3), rng.randrange(10000), False, 0, False])
+        # half of the second datasets have the shape of the first (arrays can then be handed to both)
+        ops.append(['new', ops[-2][1] if rng.chance(0.5) else rng.randrange(len(W.SHAPES)), rng.randrange(1, 3), rng.randrange(10000), False, 0, False])
         ops.append(['append', len(ops) - 1])
         ops.append(['add_link', 0, r8(), 1, r8(), rng.pick(sorted(LF.ONE))])
     ops.append(['new_group', W.gen_recipe(rng, 2, kinds)])
@@ -103,6 +104,14 @@ def generate(rng, cfg, guards):
             ops.append([k, r8(), r8(), rng.randrange(10000), rng.chance(0.25)])
         elif k == 'upd_from':
             ops.append([k, r8(), rng.randrange(10000), rng.pick([None, None, 0, 1, 2]), rng.chance(0.25), rng.pick([None, None, 0, 1]), rng.chance(0.25)])
+            if ops[-1][5] is None and rng.chance(0.35):
+                # the life of a refresh source: its owner updates it, the dataset is refreshed from it again and read, the
+                # owner updates it once more (handle -1: the most recent source)
+                hd, cc = ops[-1][1], r8()
+                ops.append(['upd_src', -1, cc, rng.randrange(10000)])
+                ops.append(['upd_from', hd, rng.randrange(10000), None, False, -1, False])
+                ops.append(['read_mask', hd, r8(), 0, 1])
+                ops.append(['upd_src', -1, cc, rng.randrange(10000)])
         elif k == 'upd_src':
             if rng.chance(0.3):
                 ops.append(['src_reshape', r8(), rng.randrange(10000), rng.randrange(3)])
